@@ -30,7 +30,25 @@ pub(crate) fn emit(event: u8, addr: usize, mode: u8) {
 /// left-right read guard is held.
 #[inline]
 pub(crate) fn point() {
-  emit(1, 0, 0);
+  // Seam H11: never yield while this thread holds a left-right read guard - the left-right writer
+  // spins until readers leave, so a descheduled reader would hang the run.
+  if READ_GUARDS.with(|c| c.get()) == 0 {
+    emit(1, 0, 0);
+  }
+}
+
+thread_local! {
+  static READ_GUARDS: std::cell::Cell<usize> = const { std::cell::Cell::new(0) };
+}
+
+/// Seam H11: a left-right read guard was taken / dropped by this thread.
+#[inline]
+pub(crate) fn read_guard_enter() {
+  READ_GUARDS.with(|c| c.set(c.get() + 1));
+}
+#[inline]
+pub(crate) fn read_guard_exit() {
+  READ_GUARDS.with(|c| c.set(c.get().saturating_sub(1)));
 }
 
 /// Verification seam H9: lets a dependent crate (fibre_cache) report a lock of its own that is not
